@@ -29,6 +29,24 @@ def unicode_model(g, n):
     return m
 
 
+def uvl_known_unreadable(m):
+    """the open C01 findings: names starting with an apostrophe, string values with a full stop or a line break"""
+    def bad_value(v):
+        if isinstance(v, str):
+            return "." in v or "\n" in v or "\r" in v or v == ""
+        if isinstance(v, list):
+            return any(bad_value(x) for x in v) or len(v) == 1
+        if isinstance(v, dict):
+            return any(bad_value(x) for x in v.values())
+        return False
+    for f in spec.spec_features(m["root"]):
+        if f["name"].startswith("'"):
+            return True
+        if any(bad_value(a["default"]) for a in f["attrs"]):
+            return True
+    return False
+
+
 def run(ctx):
     st = ctx.suite("H-env")
     g = ctx.gen
@@ -111,6 +129,10 @@ def run(ctx):
                     if not a["utf8"]:
                         st.oracle_fail(w, case, "file-is-not-utf8", w)
                     rb = a.get("readback_names")
+                    if isinstance(rb, str) and w in ("json", "fide"):
+                        st.oracle_fail(w, case, "file-cannot-be-read-back", f"{w}: {rb}")
+                    if isinstance(rb, str) and w == "uvl" and not uvl_known_unreadable(m):
+                        st.oracle_fail(w, case, "file-cannot-be-read-back", f"{w}: {rb}")
                     if isinstance(rb, list):
                         want = sorted(f["name"] for f in spec.spec_features(m["root"]))
                         if rb != want and w in ("json", "uvl", "fide"):
